@@ -5,14 +5,18 @@ package c08
 // this file goes through regclient.
 
 import (
+	"context"
 	"crypto/sha256"
 	"encoding/hex"
+	"errors"
 	"fmt"
 	"os"
 	"path/filepath"
 	"regexp"
+	"runtime"
 	"sort"
 	"strings"
+	"time"
 
 	"github.com/regclient/regclient/zz_verif/audit"
 	rm "github.com/regclient/regclient/zz_verif/regmodel"
@@ -124,6 +128,35 @@ func (s snap) recheck(dir, key string) (string, bool) {
 		s.files[key] = h
 	}
 	return h, ok
+}
+
+// mkCtx builds the context an operation is called with (see Op.Ctx).
+func mkCtx(kind int) (context.Context, context.CancelFunc) {
+	switch kind {
+	case 1:
+		ctx, cancel := context.WithCancel(context.Background())
+		cancel()
+		return ctx, cancel
+	case 2:
+		return context.WithDeadline(context.Background(), time.Unix(1, 0))
+	case 3:
+		ctx, cancel := context.WithCancel(context.Background())
+		go func() {
+			runtime.Gosched()
+			cancel()
+		}()
+		return ctx, cancel
+	}
+	return context.WithCancel(context.Background())
+}
+
+func ctxName(kind int) string {
+	return [...]string{"live", "cancelled", "expired", "cancelled-concurrently"}[((kind%4)+4)%4]
+}
+
+// ctxError tells whether an error is what a dead context legitimately produces.
+func ctxError(err error) bool {
+	return errors.Is(err, context.Canceled) || errors.Is(err, context.DeadlineExceeded)
 }
 
 // reachInfo tells how a digest was first reached.
